@@ -1,6 +1,7 @@
 package nbhttp
 
 import (
+	"fmt"
 	"io"
 	"net"
 	"net/http"
@@ -165,13 +166,18 @@ func (c *ClientConn) onResponse(conn net.Conn, res *http.Response, err error) {
 //go:norace
 func (c *ClientConn) Do(req *http.Request, handler func(res *http.Response, conn net.Conn, err error)) {
 	c.mux.Lock()
+	defer c.mux.Unlock()
 	defer func() {
-		c.mux.Unlock()
 		if err := recover(); err != nil {
 			const size = 64 << 10
 			buf := make([]byte, size)
 			buf = buf[:runtime.Stack(buf, false)]
 			logging.Error("ClientConn Do failed: %v\n%v\n", err, *(*string)(unsafe.Pointer(&buf)))
+			// the handler may have been queued already: it must get its
+			// result, and the connection is in an unknown state.
+			if !c.closed {
+				c.closeWithErrorWithoutLock(fmt.Errorf("nbhttp: client request failed: %v", err))
+			}
 		}
 	}()
 
